@@ -851,6 +851,8 @@ func (w *sessWorld) stepHook(step int64) {
 	for _, th := range w.thr {
 		th.g.Tag("after_session_loss", "yes") // discriminator of finding F-TEARDOWN (user goroutines racing with / following session teardown)
 	}
+	// the other party of that race is the event loop running the teardown: its panics carry the tag as well
+	simrt.SetGlobalTag("after_session_loss", "yes")
 	switch kind {
 	case "kill_client":
 		ssys.K.KillProc(w.pc)
